@@ -123,7 +123,7 @@ pub fn cfg_of(c: &Case) -> Cfg {
 }
 
 pub fn cases(tier: Tier) -> Vec<Case> {
-    let bits = if tier.is_quick() { 7 } else { 10 };
+    let bits = if tier.is_quick() { 7 } else { 12 };
     let mut v = Vec::new();
     for fake in [Some(4608usize), None] {
         for shape in [Shape::Small, Shape::OneBig, Shape::P2, Shape::P3, Shape::P6] {
@@ -171,7 +171,7 @@ pub fn run(tier: Tier, _part: bool) -> i32 {
     rep.set("distinct_nontrivial", json!(outcomes.len()));
     rep.set("sends_accepted", json!(n_ok));
     rep.set("sends_refused", json!(n_err));
-    rep.set("rule", json!(format!("case = (ENOBUFS bitmask over the first {} transmission attempts of one send, shape in {{<=2000 B, one packet >2000 B, 2, 3, 6 packets}}, with/without sender+region attached, effective buffer 4608 / system default); all {} masks enumerated; distinct_nontrivial = distinct (shape, attachments, buffer, send result, number of attempts) outcomes observed", if tier.is_quick() { 7 } else { 10 }, if tier.is_quick() { 128 } else { 1024 })));
+    rep.set("rule", json!(format!("case = (ENOBUFS bitmask over the first {} transmission attempts of one send, shape in {{<=2000 B, one packet >2000 B, 2, 3, 6 packets}}, with/without sender+region attached, effective buffer 4608 / system default); all {} masks enumerated; distinct_nontrivial = distinct (shape, attachments, buffer, send result, number of attempts) outcomes observed", if tier.is_quick() { 7 } else { 12 }, if tier.is_quick() { 128 } else { 4096 })));
     rep.set("exhaustive", json!(true));
     rep.sample(serde_json::to_value(&cs[cs.len() / 3]).unwrap());
     rep.sample(serde_json::to_value(&cs[cs.len() - 5]).unwrap());
